@@ -75,6 +75,7 @@ def gen_namespace(rng, nsname, thorough, deps, want_blocks=True, main=True, gobj
         for r in d.get('_records', []):
             dep_types.append('DpbShared' if r == '-shared' else d['ns'] + r)
 
+    copyfree = []
     nrec = rng.randint(1, 4 if thorough else 3)
     records = rng.sample(RECORD_NAMES, nrec)
     enums = rng.sample(ENUM_NAMES, rng.randint(0, 2))
@@ -136,8 +137,15 @@ def gen_namespace(rng, nsname, thorough, deps, want_blocks=True, main=True, gobj
             D({'k': 'typedef_struct', 'name': P + r, 'tag': None, 'members': members}, f_typedefs, len(members) + 1)
         else:
             D({'k': 'typedef_struct', 'name': P + r, 'tag': tag, 'members': members}, f_typedefs, len(members) + 1)
-        if want_blocks and rng.random() < 0.6:
-            tl = ['%s%s:%s' % (P, r, ' (foreign)' if style == 'opaque' and rng.random() < 0.4 else '')]
+        rec_ann = ''
+        if style == 'opaque' and rng.random() < 0.4:
+            rec_ann = ' (foreign)'
+        elif rng.random() < 0.25:
+            # explicit copy/free functions (they are declared among the functions further down)
+            rec_ann = ' (copy-func %s_%s_dup) (free-func %s_%s_destroy)' % (p, snake(r), p, snake(r))
+            copyfree.append(r)
+        if want_blocks and (rec_ann or rng.random() < 0.6):
+            tl = ['%s%s:%s' % (P, r, rec_ann)]
             if style != 'opaque':
                 for m in members[:2]:
                     if not m['private'] and rng.random() < 0.6:
@@ -343,6 +351,31 @@ def gen_namespace(rng, nsname, thorough, deps, want_blocks=True, main=True, gobj
             if want_blocks:
                 block(['%s:' % fn['name'], '@self: the object', '@key: (type filename): a key', '', 'Data.', '',
                        'Returns: (type %s.%s) (transfer none) (nullable): the data' % (nsname, rng.choice(records))], fn['file'])
+    for r in copyfree:
+        sr = snake(r)
+        RP = ['ptr', ['named', P + r]]
+        D({'k': 'function', 'name': '%s_%s_dup' % (p, sr), 'ret': RP, 'params': [['self', ['ptr', ['const', ['named', P + r]]]]]}, rng.choice(apis))
+        D({'k': 'function', 'name': '%s_%s_destroy' % (p, sr), 'ret': ['void'], 'params': [['self', RP]]}, rng.choice(apis))
+    for r in records:
+        sr = snake(r)
+        RP = ['ptr', ['named', P + r]]
+        if rng.random() < 0.2:
+            fn = D({'k': 'function', 'name': '%s_%s_make_default' % (p, sr), 'ret': RP, 'params': []}, rng.choice(apis))
+            if want_blocks:
+                block(['%s: (constructor)' % fn['name'], '', 'Makes one.', '', 'Returns: (transfer full): a new one'], fn['file'])
+        if rng.random() < 0.2:
+            fn = D({'k': 'function', 'name': '%s_attach_to_%s' % (p, sr), 'ret': ['void'],
+                    'params': [['target', RP], ['level', ['basic', 'int']]]}, rng.choice(apis))
+            if want_blocks:
+                block(['%s: (method)' % fn['name'], '@target: the target', '@level: the level', '', 'Attaches.'], fn['file'])
+        if rng.random() < 0.25:
+            fn = D({'k': 'function', 'name': '%s_%s_adjust' % (p, sr), 'ret': ['void'],
+                    'params': [['self', RP], ['value', ['ptr', ['basic', 'int']]], ['out_rec', RP],
+                               ['quad', ['ptr', ['named', 'gdouble']]]]}, rng.choice(apis))
+            if want_blocks:
+                block(['%s:' % fn['name'], '@self: the object', '@value: (inout): a value', '@out_rec: (out caller-allocates): result',
+                       '@quad: (array fixed-size=4) (not nullable): four numbers', '', 'Adjusts.'], fn['file'])
+
     # one rename-to pair at most (two of them aiming at one target would make order matter by design)
     if records and rng.random() < 0.3:
         sr = snake(records[0])
